@@ -99,7 +99,7 @@ class Runner:
 
     def inputs(self):
         F = self.cfg['features']
-        shape = (2, F, 2, 2) if self.cls == 'OneByOneConvolution' else (4, F)
+        shape = (2, F, 2, 3) if self.cls == 'OneByOneConvolution' else (4, F)   # non-square images: H*W, not W*W
         return torch.randn(shape, generator=self.gen, dtype=torch.float64).to(self.dtype)
 
     def whitebox(self):
